@@ -201,6 +201,7 @@ def r20_3(ctx):
 
 @rule("R20.5", "C20", "cleanup_macros guard state: #else / #endif of a skipped block re-enables copying for both kinds of guarded blocks", min_instances=2)
 def r20_5(ctx):
+    guarded_block_table(ctx)
     idx = get_index(ctx.env)
     fi = idx.func(f"{PP}.cleanup_macros")
     w = fn_where(idx, fi)
@@ -424,6 +425,42 @@ def r20_7(ctx):
         got = [o.value if o.kind != "raise" else "RAISE" for o in outs]
         exp = [line.strip("\n")] if keep else []
         ctx.check(f"line shape: {why}", got == [exp], "kept" if keep else "dropped", "kept" if got == [[line.strip(chr(10))]] else "dropped" if got == [[]] else str(got)[:80], w)
+
+
+def guarded_block_table(ctx):
+    """what happens to a definition line inside a guarded block, for every state of the three flags: lines of a CONFIG_USER_ONLY block
+    are never part of the macro set (the symbol is not defined), lines of a QEMU_GENERATE block only in the vector macro file"""
+    from sa.absint import Interp
+
+    idx = get_index(ctx.env)
+    fi = idx.func(f"{PP}.cleanup_macros")
+    loops = [n for n in ast.walk(fi.node) if isinstance(n, ast.For) and "readlines" in U(n.iter)]
+    ctx.need(len(loops) == 1, "cleanup_macros: per-line loop not found")
+    lp = loops[0]
+    appended = {U(n.func.value) for n in ast.walk(lp) if isinstance(n, ast.Call) and isinstance(n.func, ast.Attribute) and n.func.attr == "append"}
+    ctx.need(len(appended) == 1, "cleanup_macros: result list of the loop not found")
+    res = appended.pop()
+    flags = sorted({n.id for n in ast.walk(lp) if isinstance(n, ast.Name) and isinstance(n.ctx, ast.Load) and n.id.startswith(("in_", "is_"))})
+    ctx.need(set(flags) >= {"in_qemu_gen", "in_user_only", "is_vec_macro_file"}, f"cleanup_macros: flags changed: {flags}")
+    one = ast.For(target=lp.target, iter=ast.Name(id="__lines", ctx=ast.Load()), body=lp.body, orelse=[], lineno=lp.lineno, col_offset=lp.col_offset)
+    ast.fix_missing_locations(one)
+    line = "#define fX(A) (A)\n"
+    for qg in (False, True):
+        for uo in (False, True):
+            for vec in (False, True):
+                def once(i, qg=qg, uo=uo, vec=vec):
+                    env = {"__lines": [line], res: [], "in_qemu_gen": qg, "in_user_only": uo, "is_vec_macro_file": vec}
+                    for fl in flags:
+                        env.setdefault(fl, False)
+                    i.block([one], env, None)
+                    return env[res]
+                outs = Interp(idx).explore(once)
+                got = [o.value if o.kind != "raise" else "RAISE" for o in outs]
+                keep = (qg and vec and not uo) or (not qg and not uo)
+                if qg and uo:
+                    continue  # the two blocks do not nest in the sources (a directive closes both)
+                ctx.check(f"definition inside [QEMU_GENERATE={qg}, CONFIG_USER_ONLY={uo}, vector file={vec}]", got == [[line.strip(chr(10))] if keep else []],
+                          "kept" if keep else "dropped", "kept" if got == [[line.strip(chr(10))]] else "dropped" if got == [[]] else str(got)[:60], fn_where(idx, fi))
 
 
 def merged_list_is_private(ctx):
